@@ -122,8 +122,8 @@ type Term struct {
 	X0   int
 	X1   int
 	// constants
-	BV   uint64  // Bool: 0/1; BV: value (masked); F32: bits; F64: bits
-	Name string  // OVar, OApp
+	BV   uint64 // Bool: 0/1; BV: value (masked); F32: bits; F64: bits
+	Name string // OVar, OApp
 	Tab  *TermTable
 }
 
@@ -134,13 +134,14 @@ type ufDecl struct {
 }
 
 type TermTable struct {
-	byKey map[string]*Term
-	all   []*Term
-	vars  []*Term
-	ufs   map[string]*ufDecl
-	ufOrd []*ufDecl
-	True  *Term
-	False *Term
+	byKey    map[string]*Term
+	all      []*Term
+	vars     []*Term
+	ufs      map[string]*ufDecl
+	ufOrd    []*ufDecl
+	True     *Term
+	False    *Term
+	varCache map[*Term][]*Term
 }
 
 func NewTermTable() *TermTable {
